@@ -105,6 +105,25 @@ inline size_t gen_len(Src &s, bool big) {
     }
 }
 
+// a length that is either fresh or stands in a simple relation to the previous one (+-1, +-255/256, +-32768, +-65536)
+inline size_t rel_len(Src &s, bool big, size_t &last) {
+    uint8_t b = s.u8();
+    size_t l;
+    if (last != (size_t)-1 && (b & 0x0f) >= (big ? 0x0c : 0x0f)) {
+        static const long d_small[] = {1, -1, 255, 256, -256, 257, 128, -128};
+        static const long d_big[] = {65536, -65536, 65536, 32768, -32768, 65535, 65537, 256};
+        long d = big ? d_big[(b >> 4) % 8] : d_small[(b >> 4) % 8];
+        long v = (long)last + d;
+        if (v < 0) v = (long)last - d;
+        if (v < 0) v = 0;
+        if (v > 70000) v = (long)last > 65536 ? (long)last - 65536 : 70000;
+        if (!big && v > 1200) v = 1200;
+        l = (size_t)v;
+    } else l = gen_len(s, big);
+    last = l;
+    return l;
+}
+
 inline Bytes gen_payload(Src &s, size_t len) {
     Bytes b;
     if (len <= 24) {
@@ -120,9 +139,12 @@ inline Bytes gen_payload(Src &s, size_t len) {
 inline Bytes gen_name(Src &s, unsigned style, bool big) {
     Bytes n;
     switch (style % 8 == 7 ? 4 : style % 4) {
-    case 4: {  // long common prefix (100..300 bytes, around 127/128 and 255/256) + a short distinguishing tail
-        static const uint16_t pl[] = {100, 126, 127, 128, 129, 254, 255, 256, 257, 300};
-        size_t len = pl[(style >> 3) % 10];
+    case 4: {  // long common stem + a short distinguishing tail; the stem length is drawn per name, so that siblings are
+               // prefix-related with length differences of 1..200 and (with `big`) of 1..32771 around the 15/16-bit boundaries
+        static const uint32_t pl_small[] = {100, 126, 127, 128, 129, 254, 255, 256, 257, 300};
+        static const uint32_t pl_huge[] = {32766, 32767, 32768, 32769, 40000, 65530, 65531, 65535, 65536, 65537};
+        uint8_t ls = s.u8();
+        size_t len = (big && (ls & 0x80)) ? pl_huge[ls % 10] : pl_small[ls % 10];
         n.assign(len, (uint8_t)('k'));
         unsigned tail = s.u8() % 3;
         for (unsigned i = 0; i < tail; i++) n.push_back(kNameAlphabet[s.u8() % sizeof kNameAlphabet]);
@@ -159,6 +181,7 @@ struct TreeGen {
     unsigned nodes = 0;
     size_t bytes = 0;
     bool wide_used = false;
+    size_t last_len = (size_t)-1;
     TreeGen(Src &src, const GenCfg &c) : s(src), cfg(c) {}
 
     void scalar(Value &v, unsigned sel) {
@@ -172,8 +195,8 @@ struct TreeGen {
         case 0: v.k = ref::K_BOOL; v.b = s.flag(); break;
         case 1: case 2: v.k = ref::K_INT; v.i = gen_int(s); break;
         case 3: v.k = ref::K_DBL; v.d = gen_double_bits(s); break;
-        case 4: { v.k = ref::K_STR; size_t l = gen_len(s, cfg.big); if (bytes + l > cfg.max_bytes) l = 0; v.s = gen_payload(s, l); bytes += l; break; }
-        default: { v.k = ref::K_BYT; size_t l = gen_len(s, cfg.big); if (bytes + l > cfg.max_bytes) l = 0; v.s = gen_payload(s, l); bytes += l; break; }
+        case 4: { v.k = ref::K_STR; size_t l = rel_len(s, cfg.big, last_len); if (bytes + l > cfg.max_bytes) l = 0; v.s = gen_payload(s, l); bytes += l; break; }
+        default: { v.k = ref::K_BYT; size_t l = rel_len(s, cfg.big, last_len); if (bytes + l > cfg.max_bytes) l = 0; v.s = gen_payload(s, l); bytes += l; break; }
         }
     }
 
@@ -320,13 +343,35 @@ inline bool widen_at(Bytes &d, size_t desc, unsigned steps) {
     return true;
 }
 
+// narrows an integer-like field (descriptor at desc) by one width step, keeping the low bytes: a length of
+// 32768..65535 becomes a negative int16, 128..255 a negative int8, larger values are truncated
+inline bool narrow_at(Bytes &d, size_t desc) {
+    if (desc >= d.size()) return false;
+    uint8_t t = d[desc];
+    unsigned wi = t & 3;
+    uint8_t base = (uint8_t)(t & ~3);
+    if (!(base == 0x10 || base == 0x14 || base == 0x18) || wi == 0) return false;
+    size_t w = 1u << wi, nw = w / 2;
+    if (desc + 1 + w > d.size()) return false;
+    d[desc] = (uint8_t)(base + wi - 1);
+    d.erase(d.begin() + (long)(desc + 1 + nw), d.begin() + (long)(desc + 1 + w));
+    return true;
+}
+
 // applies one structural mutation guided by the tree of a valid document; returns a label or nullptr
 inline const char *mutate_structural(Bytes &d, const Value &root, Src &s) {
     std::vector<const Value *> all;
     collect(root, all);
     if (all.empty()) return nullptr;
     const Value *v = all[s.below((uint32_t)all.size())];
-    switch (s.u8() % 12) {
+    switch (s.u8() % 13) {
+    case 12:  // a length or integer squeezed into the next narrower width
+        for (size_t i = 0, st = s.below((uint32_t)all.size()); i < all.size(); i++) {
+            const Value *x = all[(st + i) % all.size()];
+            if ((x->k == ref::K_STR || x->k == ref::K_BYT || x->k == ref::K_INT) && narrow_at(d, x->tb)) return "mut:narrowed-width";
+            if (x->has_name && narrow_at(d, x->ntb)) return "mut:narrowed-name-length";
+        }
+        return nullptr;
     case 0:  // non-minimal integer
         for (size_t i = 0, st = s.below((uint32_t)all.size()); i < all.size(); i++) {
             const Value *x = all[(st + i) % all.size()];
